@@ -130,8 +130,9 @@ example : ∀ p ∈ [[Stmt.call f_Chain_ProcessBlock], [.call f_Chain_ProcessBlo
 
 /-! ### the theorem has teeth: the skeleton before the F23 repair -/
 
-/-- `tryRollback` as it was: the round trip to the block processor is made with `casper.mu`
-    (taken by `AuthVerification`) still held -/
+/-- `tryRollback` as it was before fix e3ea9721: the round trip to the block processor is made with
+    `casper.mu` (taken by `AuthVerification`) still held. `oldSkeleton` is today's skeleton with that
+    one function reverted (what reverting the fix gives now). -/
 def oldTryRollback : List Stmt :=
   [.alt [[.act (.send ch_Casper_rollbackCh), .act (.recvReply rp_RollbackMsg_Reply)], []]]
 
@@ -146,19 +147,18 @@ theorem old_skeleton_fails_discipline : wfSys oldSys ann = false := by decide
 /-- the schedule of finding F23 with ONE vote handler (thread 2; 0 = block processor, 1 = cached-vote
     loop): the handler enters AuthVerification, takes casper.mu, the vote changes the best chain, it
     sends the rollback request and waits for the reply; the block processor takes the request and
-    runs tryReorganize → reorganizeChain → setState → casper.LastFinalized → `mu.RLock()`.
-    (3 synchronisation steps — lock, send, rlock — and the 13 administrative ones between them.) -/
+    asks casper for the fork choice (`casper.BestChain()` → `mu.RLock()`; before fix 7fe07751 it got
+    as far as tryReorganize → reorganizeChain → setState → casper.LastFinalized → `mu.RLock()`).
+    (3 synchronisation steps — lock, send, rlock — and the administrative ones between them.) -/
 def f23Schedule : List (Nat × Nat × Nat) :=
   [(2,0,0),(2,0,0),(2,0,0),(2,0,0),(2,1,0),(2,0,0),(2,0,0),(2,0,0),
-   (0,1,0),(0,1,2),(0,0,0),(0,1,0),(0,0,0),(0,1,0),(0,0,0),(0,0,0)]
+   (0,1,0),(0,1,2),(0,0,0)]
 
 def f23Init : Config := init oldSys levelClient [[.call f_Chain_ProcessBlockVerification]]
 
 /-- the threads of the configuration the schedule ends in -/
 def f23Threads : List Thread :=
-  [ { prog := [.act (.rlock m_Casper_mu), .act (.runlock m_Casper_mu),
-               .alt [[], [.act (.lock m_Chain_cond_L), .act (.signal m_Chain_cond_L), .act (.unlock m_Chain_cond_L)]],
-               .alt [[], [.loop false [.call f_TxPool_RemoveTransaction], .loop false [.call f_Chain_ValidateTx]]],
+  [ { prog := [.act (.rlock m_Casper_mu), .act (.runlock m_Casper_mu), .call f_Chain_tryReorganize,
                .act (.sendReply rp_RollbackMsg_Reply)] ++ oldSys.bodyOf f_Chain_blockProcessor,
       held := [], pw := none, st := .idle, peer := some (2, rp_RollbackMsg_Reply), lvl := 2 },
     { prog := oldSys.bodyOf f_Casper_authVerificationLoop,
@@ -178,7 +178,7 @@ theorem run_reach {S : Sys} {c₀ : Config} : ∀ (ms : List (Nat × Nat × Nat)
     | some c1 => rw [hs] at h; exact run_reach ms c1 c' (Reach.step i n p hr hs) h
 
 /-- **F23 in the old skeleton**: the block processor waits for `casper.mu` (read lock in
-    `LastFinalized`), which the vote handler holds while it waits for the block processor's reply:
+    `BestChain`; `LastFinalized` before fix 7fe07751), which the vote handler holds while it waits for the block processor's reply:
     `{block processor, vote handler}` is a deadlocked set, reachable with a single vote handler.
     So `no_deadlock`, stated for the pre-fix skeleton, is FALSE. -/
 theorem f23_deadlock_refuted_in_old_skeleton :
